@@ -285,7 +285,7 @@ def rand_value(rng, hostile_p=0.6):
     if r < hostile_p:
         v_ = {"t": "str", "s": gen.text_of(rng)}
         if rng.random() < 0.1:
-            v_["sub"] = True
+            v_["sub"] = rng.choice([True, "fmt"])   # a str subclass (also one whose str() / format() are not its text) is a string value
         return v_
     if r < hostile_p + 0.12:
         v_ = HV(rng.choice(["h", "a&amp;b", "x y", "&lt;i&gt;", "50%", "q=1&r=2", ""]))
